@@ -2,6 +2,7 @@ import MypyVerif.Proofs.StubSig
 import MypyVerif.Proofs.StubImports
 import MypyVerif.Proofs.StubDefault
 import MypyVerif.Gen.StubCfg
+import MypyVerif.Model.StubRet
 /-!
 # C19 — generated stubs are valid, self-consistent and faithful: the three decision cores
 
@@ -453,3 +454,42 @@ example : available (runOps demoOps).importLines [i "os", i "path"] = true ∧
     available (runOps demoOps).importLines [i "Undefined"] = false := by decide
 
 end StubImports
+
+namespace StubRet
+
+/-! ## (d) the return annotation: what is spelled out wins over the conventional type -/
+
+/-- **annotation_preserved**.  For every function other than `__init__` that carries annotations — whatever its
+    name (the special methods of `infer_method_ret_type`'s table included), abstractness and body — the stub's
+    return annotation is the one the source spelled out; if the source spelled out none (implicit `Any`), none
+    is emitted.  In particular the conventional type (`__lt__` ↦ `bool`, `__floor__` ↦ `int`, …) never
+    replaces an explicit annotation. -/
+theorem annotation_preserved (f : FuncInfo) (ha : f.annotated = true) (hn : f.name ≠ "__init__") :
+    getFuncReturn f = f.retAnn := by
+  simp [getFuncReturn, ha, hn]
+
+/-- the converse reading: the emitted return type differs from the spelled-out one only for `__init__` or
+    for functions without any annotation -/
+theorem inferred_only_when_unannotated (f : FuncInfo) (h : getFuncReturn f ≠ f.retAnn) :
+    f.annotated = false ∨ f.name = "__init__" := by
+  cases ha : f.annotated with
+  | false => exact Or.inl rfl
+  | true =>
+    right
+    apply Classical.byContradiction
+    intro hn
+    exact h (annotation_preserved f ha hn)
+
+/-- `__init__` always gets `-> None` (unless abstract) -/
+theorem init_returns_none (f : FuncInfo) (hn : f.name = "__init__") (hab : f.abstract = false) :
+    getFuncReturn f = some "None" := by
+  simp [getFuncReturn, hn, hab, methodsWithReturnValue, inferMethodRet, dunder]
+
+-- non-vacuity: a rich comparison returning a mask, a `__floor__` returning the vector type
+example : getFuncReturn ⟨"__lt__", true, some "Mask", false, false, false, false, false, false, true⟩ = some "Mask" := by decide
+example : getFuncReturn ⟨"__floor__", true, some "Vec", false, false, false, false, false, false, true⟩ = some "Vec" := by decide
+example : getFuncReturn ⟨"__floor__", false, none, false, false, false, false, false, false, true⟩ = some "int" := by decide
+example : getFuncReturn ⟨"gen", false, none, false, false, false, true, true, true, true⟩ =
+    some "Generator[Incomplete, Incomplete, Incomplete]" := by decide
+
+end StubRet
